@@ -529,6 +529,17 @@ class C05(Profile):
             return None
         if k == "reset":
             obj = world.objs[op["p"]]
+            if op.get("ood"):
+                # K1 with an argument that is sized but is not a record (strings, a table, a record wrapped once too
+                # often).  Whether it is rejected is the library's choice: if it is, the object must be as consistent as
+                # before (I3); if it is accepted, the caller puts the record it had back at once and nothing is judged.
+                old = np.array(obj.values)
+                obj.reset_values(self._res(world, op["src"]))
+                try:
+                    obj.reset_values(old)
+                except MemoryError:       # (an injected allocation failure fires once; the caller tries again)
+                    obj.reset_values(old)
+                return None
             r = obj.reset_values(self._res(world, op["src"]))
             world.origin[op["p"]] = (self._src_kind(world, op["src"]), "reset_values", self._src_name(op["src"]))
             return r
@@ -971,7 +982,7 @@ class C05(Profile):
                 return dict(base, invariant="I3:values-npts-time", cls=_cls_name(o), victim=name, victim_kind="object",
                             what="%s after %s: %s" % (name, kind, why))
         # I4: a construction / replacement takes the source's numbers
-        if op["op"] in ("new", "reset") and out.ok:
+        if op["op"] in ("new", "reset") and out.ok and not op.get("ood"):
             o = world.objs[op["p"]]
             src = capture(lambda: np.asarray(self._res(world, op["src"])))
             if src.ok and src.value.dtype.kind in "biuf":       # real records only (C05's quantifier); complex ones come from fas2signal
@@ -1375,6 +1386,10 @@ class Gen(object):
             n = len(world.objs[p].values)
             k = rng.choice([2, 3, 5]) if n not in (2, 3, 5) else 7
             raw = rng.choice([[[1.0, 2.0]] + [[3.0]] * (k - 1), None, "abc", 5, 2.5])   # ragged, or not sized at all
+            if rng.random() < 0.4:
+                # sized and convertible, but not a record: NumPy makes an array of it, a validating library rejects it later
+                raw = rng.choice([["a"] * k, [[1.0, 2.0]] * k, [[0.5 * j for j in range(k)]], [[1.0] * k] * 2, ["1.0", "x"][:k] + ["y"] * (k - 2)])
+                return {"op": "reset", "p": p, "src": {"raw": raw}, "k1": True, "ood": True}
             return {"op": "reset", "p": p, "src": {"raw": raw}, "k1": True}
         src = self._src(world)
         if "vals" in src and src["vals"] == p and rng.random() < 0.5:
